@@ -83,8 +83,20 @@ func (fx *FnExec) run() (err error) {
 		sv := fx.makeInterface(fx.vals[fn.Params[0]], fx.iface.IfaceT)
 		fx.selfVal = &sv
 	}
+	// representation invariant of the receiver
+	if len(fn.Params) > 0 && fn.Signature.Recv() != nil {
+		if t, err := fx.typeInvFact(fx.vals[fn.Params[0]], &fx.cur); err != nil {
+			return err
+		} else if t != tTrue {
+			fx.c.comment("type invariant of the receiver")
+			fx.c.assert(sImp(sNot(fx.isNil(fx.vals[fn.Params[0]])), t))
+		}
+	}
 	// preconditions
 	if err := fx.assumeRequires(); err != nil {
+		return err
+	}
+	if err := fx.assumeInterfacePre(); err != nil {
 		return err
 	}
 	if fx.errflow {
@@ -461,6 +473,11 @@ func (fx *FnExec) loopHeader(b *ssa.BasicBlock, li *loopInfo, edges []inEdge) er
 			fx.assume(sLe(oldAlloc, fx.heapVar(&fx.cur, "$alloc", "Int")))
 		}
 	}
+	if fx.errflow {
+		// implicit invariant: no failure is pending when an iteration starts (an iteration that sees a
+		// failing callee must leave the loop); checked at every back edge
+		li.failAtEntry = fx.heapVar(&fx.cur, "$fail", "Bool")
+	}
 	for _, p := range phis {
 		name := p.Comment
 		if name == "" {
@@ -560,6 +577,17 @@ func (fx *FnExec) backEdge(from, header *ssa.BasicBlock, succIdx int) error {
 		}
 		o := fx.oblige("inv-preserved", lab, t, "loop invariant is preserved: "+inv.Text, from.Instrs[len(from.Instrs)-1].Pos())
 		o.Props = fx.con.Props
+	}
+	if fx.errflow && li.failAtEntry != "" {
+		cur := fx.heapVar(&fx.cur, "$fail", "Bool")
+		if cur != li.failAtEntry {
+			lab := fmt.Sprintf("loop%d", li.ordinal)
+			if len(li.latches) > 1 {
+				lab += fmt.Sprintf("@b%d", latchOrdinal(li, from))
+			}
+			o := fx.oblige("errflow", lab, sEq(cur, li.failAtEntry), "a loop iteration that received an error from a callee does not carry on to the next iteration as if nothing had happened", from.Instrs[len(from.Instrs)-1].Pos())
+			o.Props = fx.con.Props
+		}
 	}
 	if fc := fx.frameContract(); fc != nil && !li.modAll {
 		byName, all, err := fx.modTargetsByName(fc)
@@ -704,7 +732,13 @@ func (fx *FnExec) instr(in ssa.Instruction) error {
 			}
 		}
 	case *ssa.MakeInterface:
-		fx.set(x, fx.makeInterface(fx.plain(fx.val(x.X)), x.Type()))
+		pv := fx.plain(fx.val(x.X))
+		if t, err := fx.typeInvFact(pv, &fx.cur); err != nil {
+			return err
+		} else if t != tTrue {
+			fx.oblige("typeinv", "", sImp(sNot(fx.isNil(pv)), t), "representation invariant holds when the value is published as an interface", x.Pos())
+		}
+		fx.set(x, fx.makeInterface(pv, x.Type()))
 	case *ssa.ChangeInterface:
 		v := fx.val(x.X)
 		if len(v.L) != 2 {
@@ -944,10 +978,12 @@ func (fx *FnExec) typeAssert(x *ssa.TypeAssert) error {
 		}
 		out.L = append(out.L, cond)
 		fx.set(x, out)
+		fx.assumeTypeInvOf(res, cond)
 		return nil
 	}
 	fx.oblige("assert", "", cond, fmt.Sprintf("type assertion to %s succeeds", types.TypeString(at, func(p *types.Package) string { return p.Name() })), x.Pos())
 	fx.set(x, res)
+	fx.assumeTypeInvOf(res, cond)
 	return nil
 }
 
@@ -1340,4 +1376,74 @@ func (fx *FnExec) reaches(a, b *ssa.BasicBlock) bool {
 		return false
 	}
 	return walk(a)
+}
+
+// typeInvFact: the declared representation invariant of the struct a pointer value points to
+func (fx *FnExec) typeInvFact(v Val, h *Heap) (string, error) {
+	if v.T == nil || !isPointer(v.T) || v.Loc != nil {
+		return tTrue, nil
+	}
+	nt, ok := unalias(elemOf(v.T)).(*types.Named)
+	if !ok || nt.Obj().Pkg() == nil {
+		return tTrue, nil
+	}
+	var facts []string
+	for _, ti := range fx.e.cs.TypeInvs {
+		if ti.Type != nt.Origin().Obj().Name() || ti.PkgPath != nt.Obj().Pkg().Path() {
+			continue
+		}
+		env := &Env{fx: fx, names: map[string]Val{"self": v}, heap: h, pkg: nt.Obj().Pkg()}
+		t, err := env.evalBool(ti.Text)
+		if err != nil {
+			return "", fmt.Errorf("%s:%d: %v", ti.File, ti.Line, err)
+		}
+		facts = append(facts, t)
+	}
+	return sAnd(facts...), nil
+}
+
+// assumeInterfacePre: a method may assume the preconditions of every interface-level contract it implements
+func (fx *FnExec) assumeInterfacePre() error {
+	fn := fx.fn
+	if fn.Signature.Recv() == nil || len(fn.Params) == 0 || fn.Object() == nil {
+		return nil
+	}
+	rt := fn.Params[0].Type()
+	for _, c := range fx.e.cs.Funcs {
+		if !c.IsIface || c.Obj == nil || c.IfaceT == nil || c.Obj.Name() != fn.Name() || c == fx.iface {
+			continue
+		}
+		if !types.Implements(rt, c.IfaceT.Underlying().(*types.Interface)) {
+			if c.IfaceT.TypeParams().Len() == 0 {
+				continue
+			}
+		}
+		if len(c.Req) == 0 {
+			continue
+		}
+		self := fx.makeInterface(fx.vals[fn.Params[0]], c.IfaceT)
+		env := &Env{fx: fx, names: map[string]Val{"self": self}, heap: &fx.cur, pkg: c.Obj.Pkg()}
+		for i, n := range contractParamNames(c) {
+			if i+1 < len(fn.Params) && n != "" && n != "_" {
+				env.names[n] = fx.vals[fn.Params[i+1]]
+			}
+		}
+		for _, r := range c.Req {
+			t, err := env.evalBool(r.Text)
+			if err != nil {
+				return fmt.Errorf("%s:%d: %v", r.File, r.Line, err)
+			}
+			fx.c.comment("precondition of " + displayKey(c.Key) + ": " + r.Text)
+			fx.c.assert(t)
+		}
+	}
+	return nil
+}
+
+// assumeTypeInvOf: values read out of interfaces satisfy their type's representation invariant
+// (it was checked when they were boxed)
+func (fx *FnExec) assumeTypeInvOf(v Val, guard string) {
+	if t, err := fx.typeInvFact(v, &fx.cur); err == nil && t != tTrue {
+		fx.assume(sImp(sAnd(guard, sNot(fx.isNil(v))), t))
+	}
 }
